@@ -128,9 +128,7 @@ def secidxLoop (wantIndex : Bool) : Nat → Cfg → List (Nat × Nat) → Option
       if wantIndex then ⟨lastOpt, lastIdx, []⟩
       else match getoptLeaf sec name with
         | some i => ⟨some ⟨steps, i⟩, -1, []⟩
-        | none =>
-          -- silent only when a free-form section is asked itself (`sec == cfg`: no step taken yet)
-          ⟨none, -1, if !(sec.flags.keystrval && steps.isEmpty) then [.noSuchOption] else []⟩
+        | none => ⟨none, -1, [.noSuchOption]⟩
     if name.isEmpty then finish
     else
       let secname := name.takeWhile (fun c => !isSep c)
@@ -140,14 +138,12 @@ def secidxLoop (wantIndex : Bool) : Nat → Cfg → List (Nat × Nat) → Option
       else if len == 0 then finish
       else
         -- the do { } while(0) block
-        -- a free-form section asked itself for an option takes any name as a key, also a path-like one
-        let quiet : Bool := !wantIndex && steps.isEmpty && sec.flags.keystrval
         match pathOpt sec secname with
-        | none => ⟨none, -1, if quiet then [] else [.noSubSection]⟩
+        | none => ⟨none, -1, [.noSubSection]⟩
         | some (oi, o) =>
           let q := pathQual o after len
           match pathInst o q.1 with
-          | none => ⟨none, q.1, if quiet then [] else if !o.flags.multi then [.noSuchOption] else [.noSubSection]⟩
+          | none => ⟨none, q.1, if !o.flags.multi then [.noSuchOption] else [.noSubSection]⟩
           | some (ii, s) =>
             let name1 := name.drop q.2
             let seps := (name1.takeWhile (· == c_pipe)).length
@@ -156,12 +152,14 @@ def secidxLoop (wantIndex : Bool) : Nat → Cfg → List (Nat × Nat) → Option
               secidxLoop wantIndex fuel s (steps ++ [(oi, ii)]) (some ⟨steps, oi⟩) q.1 (name1.drop seps)
 
 /-- the resolver proper reports what it would say; whether anything is said at all is decided by
-the flags of the context the lookup started from (`cfg->flags & CFGF_IGNORE_UNKNOWN`) -/
+the flags of the context the lookup started from: nothing with `CFGF_IGNORE_UNKNOWN`, and nothing
+when a free-form (`CFGF_KEYSTRVAL`) section is asked for an option — there any name is a key, also
+one that looks like a path, and the parser adds it -/
 def getoptSecidx (c : Cfg) (name : Bytes) (wantIndex : Bool) : PathOut :=
   if name.isEmpty then ⟨none, -1, []⟩
   else
     let r := secidxLoop wantIndex (name.length + 1) c [] none (-1) name
-    if c.flags.ignoreUnknown then { r with diags := [] } else r
+    if c.flags.ignoreUnknown || (!wantIndex && c.flags.keystrval) then { r with diags := [] } else r
 
 /-- `cfg_getopt` -/
 def getoptPath (c : Cfg) (name : Bytes) : PathOut := getoptSecidx c name false
